@@ -1,19 +1,135 @@
 """C14 — both parsers are total.  Assembled from the text half (props/c14text.py) and the OpenMetrics half
-(props/c14om.py); the function-level correspondence of the shared scanning core runs first."""
+(props/c14om.py); the function-level correspondence of the shared scanning core runs first, and a stress stream of
+extreme inputs (special number tokens in every value position, very long runs of every special character) runs last."""
+import signal
+import traceback
+
 import corecheck
+import lib
 from props import c14om, c14text
+
+SPECIAL_VALUES = ['+Inf', '-Inf', 'Inf', 'inf', 'NaN', 'nan', '1e400', '-1e400', '1e-400', '9' * 400, '-' + '9' * 400, '9' * 5000,
+                  '0x10', '1_0', '1e5.5', '٣', '1\x1c', '', '1e', '.', '-', '+', '1.5e+308', '4.9e-324', '0.0', '-0.0']
+RUN_CHARS = ['\\', '"', '{', '}', ',', ' ', '#', '=', '\t', 'a', '0', '\xa0', '\\"', '\\\\"']
+RUN_LENGTHS = [1100, 3000]
+
+
+class _Timeout(Exception):
+    pass
+
+
+def _alarm(signum, frame):
+    raise _Timeout()
+
+
+def probe(which, text, limit=10):
+    """run one real parser; returns None (families or ValueError) or (class name, function at the raise site)"""
+    from prometheus_client import parser as tp
+    from prometheus_client.openmetrics import parser as op
+    f = tp.text_string_to_metric_families if which == 'text' else op.text_string_to_metric_families
+    old = signal.signal(signal.SIGALRM, _alarm)
+    signal.alarm(limit)
+    try:
+        list(f(text))
+        return None
+    except ValueError:
+        return None
+    except _Timeout:
+        return ('Timeout', 'watchdog')
+    except BaseException as e:  # noqa: every other class is the observation
+        tb = traceback.extract_tb(e.__traceback__)
+        return (type(e).__name__, tb[-1].name if tb else '?')
+    finally:
+        signal.alarm(0)
+        signal.signal(signal.SIGALRM, old)
+
+
+def value_positions(line):
+    """(start, end) of the value token of a sample line, or None"""
+    if not line or line.startswith('#'):
+        return None
+    # after the label block (last unquoted-looking '}' followed by a space) or after the first space
+    i = line.rfind('} ')
+    start = i + 2 if i != -1 else (line.find(' ') + 1 if ' ' in line else None)
+    if not start:
+        return None
+    end = line.find(' ', start)
+    return (start, len(line) if end == -1 else end)
+
+
+def stress(ctx):
+    import omgen
+    rng = ctx.rng
+    docs = []
+    ndocs = 12 if ctx.tier == 'quick' else 120
+    for _ in range(ndocs):
+        text, _desc = omgen.gen_document(rng)
+        docs.append(('om', text))
+        # the same document without '# EOF' is a plausible text-format document for the lax text parser
+        docs.append(('text', text.replace('# EOF\n', '')))
+    n = 0
+    for which, text in docs:
+        lines = text.split('\n')
+        cands = [i for i, l in enumerate(lines) if value_positions(l)]
+        # (1) special number tokens in every value position
+        for i in cands:
+            a, b = value_positions(lines[i])
+            for tok in (SPECIAL_VALUES if ctx.tier != 'quick' else rng.sample(SPECIAL_VALUES, 6)):
+                mutated = '\n'.join(lines[:i] + [lines[i][:a] + tok + lines[i][b:]] + lines[i + 1:])
+                n += 1
+                r = probe(which, mutated)
+                ctx.case(nontrivial_key=('special', which, n))
+                ctx.count('stress:special-value')
+                if r:
+                    ctx.fail('C14:%s:%s:%s' % (which, r[0], r[1]),
+                             '%s parser raised %s in %s with value token %r on line %r' % (which, r[0], r[1], tok, lines[i][:80]),
+                             {'parser': which, 'document': mutated, 'stress': True})
+        # (2) very long runs of one character, inside a line at a random position
+        for _ in range(3 if ctx.tier == 'quick' else 12):
+            i = rng.randrange(len(lines))
+            ch = rng.choice(RUN_CHARS)
+            k = rng.choice(RUN_LENGTHS)
+            pos = rng.randrange(len(lines[i]) + 1)
+            mutated = '\n'.join(lines[:i] + [lines[i][:pos] + ch * k + lines[i][pos:]] + lines[i + 1:])
+            n += 1
+            r = probe(which, mutated)
+            ctx.case(nontrivial_key=('run', which, n))
+            ctx.count('stress:long-run')
+            if r:
+                ctx.fail('C14:%s:%s:%s' % (which, r[0], r[1]),
+                         '%s parser raised %s in %s on a run of %d × %r inserted into line %r' % (which, r[0], r[1], k, ch, lines[i][:60]),
+                         {'parser': which, 'document': mutated, 'stress': True})
+    # (3) hand-made worst cases
+    for which in ('text', 'om'):
+        for k in RUN_LENGTHS:
+            for doc in ['a{l="' + '\\' * k + '"} 1\n', 'a{l="x' + '\\' * k + '"y"} 1\n', '# HELP a ' + '\\' * k + '\n', 'a{' + 'l="v",' * k + '} 1\n',
+                        'a ' + '1' * k + '\n', '{"' + '\\' * k + '"} 1\n', 'a 1 # {a="' + '\\' * k + '"} 1\n']:
+                d = doc + ('# EOF\n' if which == 'om' else '')
+                r = probe(which, d)
+                ctx.case(nontrivial_key=('worst', which, k, doc[:12]))
+                ctx.count('stress:worst-case')
+                if r:
+                    ctx.fail('C14:%s:%s:%s' % (which, r[0], r[1]), '%s parser raised %s in %s on %r…' % (which, r[0], r[1], d[:40]),
+                             {'parser': which, 'document': d, 'stress': True})
 
 
 def run(ctx):
     corecheck.run(ctx)
     c14text.run_text(ctx)
     c14om.run_om(ctx)
+    stress(ctx)
     if not ctx.rule:
         ctx.rule = 'see c14text.py / c14om.py'
+    ctx.rule += ('; stress stream: special number tokens substituted at every value position of generated documents, runs of 1100/3000 '
+                 'of each special character inserted at random positions, hand-made worst cases (oracle on the real parsers only)')
 
 
 def replay(ctx, case):
     c = case.get('case', {})
+    if c.get('stress'):
+        r = probe(c['parser'], c['document'])
+        print('REPLAY', c['parser'], 'parser ->', r or 'families or ValueError')
+        return 1 if r else 0
     if c.get('parser') == 'om' or str(case.get('sig', '')).startswith('C14:om'):
         return c14om.replay_om(ctx, case)
     return c14text.replay_text(ctx, case)
